@@ -62,7 +62,7 @@ def run(rep, tier):
         if "WHAT" in df and "II" not in df:
             return dict(family="ucmu", d=int(df["D"]), what=int(df["WHAT"]), seed=core.SEED)
         if "II" not in df:            # RotateToB1/B0 ordering, mixing matrix
-            return dict(family="mixing", d=min(max(int(df["D"]), 2), 6), seed=core.SEED)
+            return dict(family="mixing", d=min(max(int(df.get("D", 3)), 2), 6), seed=core.SEED)
         w = dict(family="rotation", d=int(df["D"]), i=int(df["II"]), j=int(df["JJ"]), seed=core.SEED)
         if sub is not None:
             w["ia"] = int(l2.defs_of(sub.q)["IA"])
